@@ -112,7 +112,10 @@ def gen_calls(gen, inst, rnd, n, temps=None):
             calls.append(("ac", ai, "set_quick_timer_duration",
                           (rnd.choice(["ON_TIMER", "OFF_TIMER"]),
                            rnd.choice([0, 59, 60, 61, 3599, 3600, 5400, 86399, 86400, 90000,
-                                       172800, rnd.randint(0, 172800)]))))
+                                       172800, rnd.randint(0, 172800),
+                                       # legal but never seen in practice: days and weeks
+                                       255 * 3600 + 59 * 60, 256 * 3600, 300 * 3600 + 600,
+                                       rnd.randint(256 * 3600, 10 ** 7)]))))
         elif c < 0.69:
             calls.append(("ac", ai, "set_quick_timer_time",
                           (rnd.choice(["ON_TIMER", "OFF_TIMER"]), rnd.randint(0, 23),
